@@ -4,8 +4,13 @@
 //
 //   scn <name>
 //   opt seed=<n> end_us=<n> slice_us=<n> start_us=<n> jitter=<0|1|2> watchdog_ms=<n> limit=<n> mode=free|replay
-//   src <sid> policy=queue|burst|conf cap=<n> [stopafter=<deliveries>]      push source <sid> -> collecting sink
-//   prod <pid> src=<sid> kind=try|block n=<messages> [gap_us=<n>] [retries=<n>]   producer thread, values pid*1000+i
+//   src <sid> policy=queue|burst|conf|confd cap=<n> [stopafter=<deliveries>] push source <sid> -> collecting sink
+//                                       confd: conflating over a dictionary output TSD<Int, TS<Int>>; send v sets key v % 3
+//                                       to v (an effective delta) or - where the producer's fx pattern says 0 - erases key
+//                                       99, which is never set (a delta with no effect: nothing to deliver); the sink logs
+//                                       the modified values (ordered by key) and their keys
+//   prod <pid> src=<sid> kind=try|block n=<messages> [gap_us=<n>] [retries=<n>] [fx=<0/1 pattern, cyclic>] [delay_us=<n>]
+//                                       producer thread, values pid*1000+i; delay_us: sleep before the first send
 //   stopper after_us=<n>                                                     thread calling request_stop
 //   timer <tid> acts=<a0>/<a1>/...      scripted scheduler node; a_k = ops joined by '+', run in activation k
 //                                       (k = 0 the start hook); ops: rel.<us> abs.<us> wall.<us> spin.<us> lag.<us> stop -
@@ -66,6 +71,8 @@ namespace
         long        n{1};
         long        gap_us{0};
         long        retries{0};
+        std::string fx{"1"};     // confd sources: send i is effective iff fx[i % len] != '0'
+        long        delay_us{0};
     };
     struct TimerSpec
     {
@@ -119,7 +126,7 @@ namespace
         std::int64_t      a{0}, b{0}, c{0}, d{0}, e{0}, f{0};
         long              src{-1}, val{-1};
         std::string       s;
-        std::vector<long> vals;
+        std::vector<long> vals, keys;
     };
 
     struct TCtx
@@ -370,6 +377,9 @@ namespace
     }
 
     // ------------------------------------------------------------------ graph nodes
+    constexpr long kDictKeys  = 3;    // confd: send v writes key v % 3 (PushTrace.tla KeyOf)
+    constexpr long kAbsentKey = 99;   // confd: the key erased by a no-effect send; never set
+
     void do_request_stop(const GraphExecutorView &ex)
     {
         record(K_STOPCALL);
@@ -385,16 +395,34 @@ namespace
         schema.node_kind    = NodeKind::Sink;
         NodeCallbacks callbacks;
         const bool    burst = sp.policy == "burst";
+        const bool    dict  = sp.policy == "confd";
         const long    sid = sp.sid, stopafter = sp.stopafter;
         auto          count = std::make_shared<long>(0);
-        callbacks.evaluate  = [burst, sid, stopafter, count](const NodeView &view, DateTime evaluation_time) {
+        callbacks.evaluate  = [burst, dict, sid, stopafter, count](const NodeView &view, DateTime evaluation_time) {
             auto              root   = view.input(evaluation_time);
             auto              bundle = root.as_bundle();
-            std::vector<long> values;
+            std::vector<long> values, keys;
             if (burst)
             {
                 auto tuple = bundle[0].value().as_list();
                 for (std::size_t i = 0; i < tuple.size(); ++i) { values.push_back(static_cast<long>(tuple[i].checked_as<Int>())); }
+            }
+            else if (dict)
+            {
+                // the delivered state change: the modified entries of the dictionary, ordered by key
+                std::vector<std::pair<long, long>> mod;
+                auto                               in0 = bundle[0];
+                auto                               d   = in0.as_dict();
+                for (auto [key, child] : d.modified_items())
+                {
+                    if (child.valid()) { mod.emplace_back(static_cast<long>(key.checked_as<Int>()), static_cast<long>(child.value().checked_as<Int>())); }
+                }
+                std::sort(mod.begin(), mod.end());
+                for (auto &kv : mod)
+                {
+                    keys.push_back(kv.first);
+                    values.push_back(kv.second);
+                }
             }
             else { values.push_back(static_cast<long>(bundle[0].value().checked_as<Int>())); }
             *count += static_cast<long>(values.size());
@@ -403,6 +431,7 @@ namespace
             e.a    = rel(evaluation_time);
             e.b    = rel(wall());
             e.vals = std::move(values);
+            e.keys = std::move(keys);
             if (stopafter > 0 && *count >= stopafter) { do_request_stop(view.graph().executor()); }
         };
         return NodeBuilder::native(std::move(schema), std::move(callbacks), hgraph::testing::single_input_endpoint(input_schema, input_ts));
@@ -538,9 +567,16 @@ namespace
             std::lock_guard rl(r.rm);
             t->started = true;
         }
+        const bool dict = r.scn->srcs[static_cast<std::size_t>(sp.src)].policy == "confd";
+        if (!r.replay && sp.delay_us > 0)
+        {
+            std::unique_lock lk(r.pm);
+            r.pcv.wait_for(lk, std::chrono::microseconds(sp.delay_us), [&] { return r.run_over; });
+        }
         for (long i = 0; i < sp.n; ++i)
         {
-            const long v = sp.pid * 1000 + i;
+            const long v  = sp.pid * 1000 + i;
+            const bool fx = !dict || sp.fx.empty() || sp.fx[static_cast<std::size_t>(i) % sp.fx.size()] != '0';
             for (long attempt = 0; attempt <= sp.retries; ++attempt)
             {
                 if (!r.replay && sp.gap_us > 0 && !r.over_flag.load(std::memory_order_relaxed))
@@ -556,11 +592,18 @@ namespace
                     e.src = sp.src;
                     e.val = v;
                     e.s   = sp.kind;
+                    e.a   = fx ? 1 : 0;
                 }
                 bool ok = false, exc = false;
                 try
                 {
-                    ok = sp.kind == "block" ? sender.send_blocking(Int{v}) : sender.try_send(Int{v});
+                    if (dict)
+                    {
+                        // effective: set key v % 3 to v; no effect: a (lenient) removal of a key that is never set
+                        Value delta = fx ? dict_delta<Int, TS<Int>>({{Int{v % kDictKeys}, Int{v}}}) : dict_delta<Int, TS<Int>>({}, {Int{kAbsentKey}});
+                        ok          = sp.kind == "block" ? sender.send_blocking(std::move(delta)) : sender.try_send(std::move(delta));
+                    }
+                    else { ok = sp.kind == "block" ? sender.send_blocking(Int{v}) : sender.try_send(Int{v}); }
                 }
                 catch (const std::exception &)
                 {
@@ -703,9 +746,9 @@ namespace
                     j.emit();
                     break;
                 }
-                case K_CALL: J("call").i("s", e->seq).i("th", e->th).i("src", e->src).i("v", e->val).str("kind", e->s).emit(); break;
+                case K_CALL: J("call").i("s", e->seq).i("th", e->th).i("src", e->src).i("v", e->val).str("kind", e->s).i("fx", e->a).emit(); break;
                 case K_RET: J("ret").i("s", e->seq).i("th", e->th).i("src", e->src).i("v", e->val).i("r", e->a).i("exc", e->b).emit(); break;
-                case K_DLV: J("dlv").i("s", e->seq).i("th", e->th).i("src", e->src).i("t", e->a).i("w", e->b).raw("vals", jlist(e->vals)).emit(); break;
+                case K_DLV: J("dlv").i("s", e->seq).i("th", e->th).i("src", e->src).i("t", e->a).i("w", e->b).raw("vals", jlist(e->vals)).raw("keys", jlist(e->keys)).emit(); break;
                 case K_CYCLE: J("cycle").i("s", e->seq).i("th", e->th).i("t", e->a).i("w", e->b).emit(); break;
                 case K_CYCLED: J("cycled").i("s", e->seq).i("th", e->th).i("t", e->a).emit(); break;
                 case K_TEV: J("tev").i("s", e->seq).i("th", e->th).i("id", e->a).i("k", e->b).i("t", e->c).i("w", e->d).emit(); break;
@@ -728,19 +771,21 @@ namespace
     }
 
     // ------------------------------------------------------------------ one scenario
-    void run_scenario(Scenario &scn)
+    void run_scenario(Scenario &scn, bool silent = false)
     {
         Run r;
         r.scn    = &scn;
         r.replay = scn.replay;
         g_run    = &r;
         hv::wall_clock_offset_us.store(0);
-        J("scn").str("name", scn.name).str("mode", scn.replay ? "replay" : "free").i("seed", scn.seed).emit();
+        if (!silent) { J("scn").str("name", scn.name).str("mode", scn.replay ? "replay" : "free").i("seed", scn.seed).emit(); }
 
         const auto *ts_int      = ts_type<TS<Int>>();
         const auto *ts_tuple    = ts_type<TS<HomogeneousTuple<Int>>>();
         const auto *in_int      = hgraph::testing::single_input_schema(*ts_int);
         const auto *in_tuple    = hgraph::testing::single_input_schema(*ts_tuple);
+        const auto *ts_dict     = ts_type<TSD<Int, TS<Int>>>();
+        const auto *in_dict     = hgraph::testing::single_input_schema(*ts_dict);
         const std::size_t nsrc  = scn.srcs.size();
         r.senders.resize(nsrc);
         r.sender_ready.assign(nsrc, false);
@@ -777,6 +822,10 @@ namespace
             {
                 gb.add_node(make_push_source_node_with_view(*ts_tuple, make_push_source_burst_policy(*ts_tuple, static_cast<std::size_t>(sp.cap)), std::move(ext)));
             }
+            else if (sp.policy == "confd")
+            {
+                gb.add_node(make_push_source_node_with_view(*ts_dict, make_push_source_conflating_policy(*ts_dict), std::move(ext)));
+            }
             else if (sp.policy == "conf")
             {
                 gb.add_node(make_push_source_node_with_view(*ts_int, make_push_source_conflating_policy(*ts_int), std::move(ext)));
@@ -789,13 +838,15 @@ namespace
         for (std::size_t i = 0; i < nsrc; ++i)
         {
             const bool burst = scn.srcs[i].policy == "burst";
-            gb.add_node(make_sink(scn.srcs[i], burst ? *in_tuple : *in_int, burst ? *ts_tuple : *ts_int));
+            const bool dict  = scn.srcs[i].policy == "confd";
+            gb.add_node(make_sink(scn.srcs[i], burst ? *in_tuple : dict ? *in_dict : *in_int, burst ? *ts_tuple : dict ? *ts_dict : *ts_int));
             gb.add_edge(GraphEdge{.source_node = make_graph_edge_source(i), .source_path = {}, .target_node = nsrc + i, .target_path = {0}});
         }
         for (std::size_t j = 0; j < scn.timers.size(); ++j)
         {
             const TimerSpec &t = scn.timers[j];
-            if (t.in >= 0 && static_cast<std::size_t>(t.in) < nsrc && scn.srcs[static_cast<std::size_t>(t.in)].policy != "burst")
+            if (t.in >= 0 && static_cast<std::size_t>(t.in) < nsrc && scn.srcs[static_cast<std::size_t>(t.in)].policy != "burst" &&
+                scn.srcs[static_cast<std::size_t>(t.in)].policy != "confd")
             {
                 gb.add_node(make_timer(t, *ts_int, in_int));
                 gb.add_edge(GraphEdge{.source_node = make_graph_edge_source(static_cast<std::size_t>(t.in)), .source_path = {},
@@ -914,10 +965,35 @@ namespace
         finished.store(true);
         wcv.notify_all();
         watchdog.join();
-        dump(r, "end", "");
+        if (!silent) { dump(r, "end", ""); }
         hv::wall_clock_offset_us.store(0);
         g_run = nullptr;
         tl    = nullptr;
+    }
+
+    // The first dictionary graph of a process costs tens of milliseconds (type plans, first deltas) - more than a whole run
+    // window.  One unrecorded run of a small dictionary scenario pays that before the first recorded one.
+    void warm_dict_once(const Scenario &scn)
+    {
+        static bool warmed = false;
+        bool        uses   = false;
+        for (const auto &s : scn.srcs) { uses = uses || s.policy == "confd"; }
+        if (warmed || !uses) { return; }
+        warmed = true;
+        Scenario w;
+        w.name   = "warm";
+        w.end_us = 60000;
+        w.jitter = 0;
+        SrcSpec s;
+        s.policy    = "confd";
+        s.stopafter = 3;
+        w.srcs.push_back(s);
+        ProdSpec p;
+        p.n      = 6;
+        p.fx     = "110";
+        p.gap_us = 100;
+        w.prods.push_back(p);
+        run_scenario(w, /*silent=*/true);
     }
 
     int thread_by_name(const std::string &n)
@@ -976,6 +1052,8 @@ int main(int, char **)
                 p.n       = l.geti("n", 1);
                 p.gap_us  = l.geti("gap_us", 0);
                 p.retries = l.geti("retries", 0);
+                p.fx       = l.gets("fx", "1");
+                p.delay_us = l.geti("delay_us", 0);
                 if (p.pid < 1 || p.pid > 40 || p.src < 0 || p.src >= static_cast<long>(scn->srcs.size())) { throw std::logic_error("bad producer"); }
                 scn->prods.push_back(p);
             }
@@ -1006,6 +1084,7 @@ int main(int, char **)
             {
                 try
                 {
+                    warm_dict_once(*scn);
                     run_scenario(*scn);
                 }
                 catch (const std::exception &e)
